@@ -95,6 +95,30 @@ func (e *Env) applyContract(st *State, ct *Contract, args []Val, rt types.Type, 
 	if c != nil {
 		pos = c.Pos()
 	}
+	// a callback handed to a callee that is represented by its contract may be invoked by it, any number of times, with
+	// any arguments: under nopanic its body is executed once on symbolic arguments (for its panic-site obligations)
+	// and what it captured by reference is then unknown
+	if e.nopanic && e.specMode == 0 {
+		for _, a := range args {
+			if a.K == kClosure && a.Fn != nil && a.Fn.Blocks != nil && isTeleport(a.Fn) && !e.onStack(a.Fn) {
+				e.notes["callback passed to a contracted callee: body checked once on symbolic arguments (panic sites)"]++
+				scratch := st.clone()
+				var cargs []Val
+				if a.Bound != nil {
+					cargs = append(cargs, *a.Bound)
+				}
+				for _, prm := range a.Fn.Params[len(cargs):] {
+					cargs = append(cargs, e.symbolic(scratch, prm.Type(), "cb_"+prm.Name()))
+				}
+				savedPaths := e.paths
+				e.inline(scratch, a.Fn, cargs, a.Bind, 1)
+				e.paths = savedPaths
+				for _, b := range a.Bind {
+					e.havocReach(st, b, "callback", 0)
+				}
+			}
+		}
+	}
 	cx := &cenv{e: e, pre: st, post: st, vars: vars, ct: ct, file: ct.File, applied: true}
 	if e.specMode == 0 {
 		for _, r := range ct.Requires {
